@@ -29,8 +29,9 @@ GEN_DEPS = ["AESCompressor.compress", "AESCompressor.flush", "AESDecompressor.de
 LEVEL = "proof"
 TRUSTED_BASE = [
     "Coq 8.16.1 kernel, vm_compute (no native_compute); no axioms (Print Assumptions: closed)",
-    "hand models theories/Comp.v, Decomp.v, Aes.v (line-by-line transcriptions of compressor.py l.139-240, 671-728, "
-    "893-935 and py7zr.py l.1461-1510), tied to the implementation by the per-call correspondence of this check",
+    "hand models theories/Comp.v, Decomp.v, Aes.v (line-by-line transcriptions of AESCompressor/AESDecompressor, "
+    "SevenZipDecompressor._decompress/_read_data/decompress, SevenZipCompressor.compress/flush/unpacksizes in compressor.py "
+    "and Worker.decompress in py7zr.py), tied to the implementation by the per-call correspondence of this check",
     "the stage codecs (liblzma, zlib, bz2, pyzstd, pyppmd, brotli, bcj, inflate64, pycryptodome AES) are NOT modelled: "
     "their stream-encoder / prefix-safe-decoder / inverse contracts are hypotheses of the theorems, validated here on "
     "random chunkings",
@@ -907,7 +908,7 @@ def check_contracts(ctx, rep, rng, tier):
         faults.setdefault(name, []).append(outcome)
         rep.violation("codec contract: %s round trip of %d %s bytes through the wrapper classes alone: %s" % (name, job["n"], job["texture"], what),
                       {"kind": "codec-contract", **job, "outcome": outcome},
-                      match_keys={"kind": "codec-contract", "codec": name, "large": job["n"] >= 32768})
+                      match_keys={"kind": "codec-contract", "codec": name, "large": job["n"] >= 32768, "outcome": outcome})
     for name in sorted(BCJ_TAIL_WITNESSES):
         out = run_sandboxed("harness.c01:contract_bcj_tail", {"codec": name, "seed": rng.getrandbits(32),
                                                               "trials": 1500 if tier == "quick" else 30000}, timeout=300, mem_mb=3000)
@@ -983,8 +984,9 @@ def gen_spec(rng, tier, idx, chains, fast_only=False):
         chain = rng.choice(plain if rng.random() < 0.65 else names)
     aes = chain.endswith("aes")
     target = rng.choice(["path", "bytesio", "fileobj", "rawfile", "multivolume", "multivolume"])
-    # block sizes below 16 break 7zAES on any target (aes-small-block); kept apart from the short reads of multi-volume files
-    block = rng.choice([None, None, 16, 17, 4096, 32768] + ([7] if aes and target != "multivolume" and rng.random() < 0.25 else []))
+    # block sizes below 16 and short reads at volume boundaries hand AESDecompressor chunks that do not complete a block
+    # (ValueError before the repair of its unaligned branch: findings C01-aes-small-block, C01-short-read-aes, now fixed)
+    block = rng.choice([None, None, 16, 17, 4096, 32768] + ([7, 7, 1] if aes and rng.random() < 0.3 else []))
     if fast_only:
         block = None
     limit = rng.choice([None, None, 1, 7, 4096])
@@ -1175,7 +1177,8 @@ def _die_with_parent():
 
 
 class NoProgress(Exception):
-    """SevenZipDecompressor.decompress returned nothing 100000 times in a row without consuming input: the caller loops
+    """SevenZipDecompressor.decompress returned nothing 100000 times in a row without consuming input or advancing any
+    coder of its chain: the caller loops
     (Worker.decompress, Header._read) have no progress guard and would never return (Decomp.worker_spins)"""
 
 
@@ -1186,9 +1189,9 @@ def _install_spin_detector():
     orig = C.SevenZipDecompressor.decompress
 
     def decompress(self, fp, max_length=-1):
-        before = self.consumed
+        before = (self.consumed, sum(self._unpacked))     # an inner coder that advances is progress
         res = orig(self, fp, max_length)
-        if len(res) == 0 and self.consumed == before and max_length != 0:
+        if len(res) == 0 and (self.consumed, sum(self._unpacked)) == before and max_length != 0:
             self._c01_idle = getattr(self, "_c01_idle", 0) + 1
             if self._c01_idle > 100000:
                 raise NoProgress("decompress() idle 100000 times: the extraction loop does not terminate")
@@ -1341,10 +1344,16 @@ def classify(ctx, spec, r):
             return "BCJ filter (%s) in front of a non-LZMA codec: the codec's decoder delivers the end of its stream in a separate piece and " \
                    "pybcj's decoder has by then flushed the beginning of the last instruction word unconverted (the codec contract " \
                    "validation shows the same on the wrapper class alone; the same session is fine without the filter): %s" % (bcjs[0], desc), keys
+    if any(p.startswith("ppmd") for p in parts) and total >= 32768 and r["stage"] == "process" and r["exc"] in ("crash", "timeout"):
+        # the interpreter died or hung inside pyppmd's decoder (a race between its decoder thread and the caller; about two
+        # in a hundred long runs of many decode calls; the contract validation shows it on the wrapper class alone)
+        keys = {"kind": "codec-fault", "codec": "ppmd", "outcome": r["exc"]}
+        return "PPMd member data of %d bytes: the process %s inside pyppmd's Ppmd7Decoder: %s" % (
+            total, "crashed" if r["exc"] == "crash" else "hung", desc), keys
     if any(p.startswith("ppmd") for p in parts) and total >= 32768 and (
             r["exc"] in ("crash", "ValueError", "timeout", "CrcError", "Bad7zFile", "NoProgress") or r["stage"] in ("content", "process", "spin")):
         if ctx.get("codec_faults", {}).get("ppmd"):
-            keys = {"kind": "codec-fault", "codec": "ppmd"}
+            keys = {"kind": "codec-fault", "codec": "ppmd", "outcome": r["exc"] or r["stage"]}
             return "PPMd member data of %d bytes: pyppmd's decoder fails on its own encoder's output (the codec contract " \
                    "validation shows the same without py7zr's containers): %s" % (total, desc), keys
     return desc, keys
@@ -1433,6 +1442,79 @@ def _len_class(n, b):
     return "other<%d" % (10 ** len(str(n)))
 
 
+# ------------------------------------------------------------------------------------------------------
+# archives py7zr cannot write itself: two size-changing coders in one solid folder (reference writer of C06)
+FOREIGN_CHAINS = ["deflate>lzma2", "lzma2>deflate", "bzip2>copy", "delta+lzma2"]
+
+
+def foreign_batch(cases):
+    """run in a sandbox child.  A solid folder [coder A, coder B] with tiny and empty members: SevenZipDecompressor passes
+    the member's max_length to every coder, so the inner coder hands the outer one a few bytes per round and many rounds
+    deliver nothing although the chain advances (the stall guard must not mistake them for the end of the stream)."""
+    import py7zr  # noqa
+    from harness import arch
+    from ref import refwriter
+    _die_with_parent()
+    _install_spin_detector()
+    out = []
+    for c in cases:
+        rng = random.Random(c["seed"])
+        members = []
+        for i, n in enumerate(c["sizes"]):
+            members.append({"name": "m%d" % i, "kind": "file", "data": arch.pattern_bytes(rng, n, c["texture"]),
+                            "mtime": 132223106129620810 + i, "attr": 0x20, "ctime": None, "atime": None})
+        blob = refwriter.write_archive(members, {"folders": [list(range(len(members)))], "coders": [c["chain"]],
+                                                "crc": c["crc"], "header": "raw"})
+        with _Patched(c["block"], c["limit"]):
+            r = arch.read_archive(blob)
+        want = [(m["name"], m["data"]) for m in members]
+        if r[0] == "ok" and r[1] == [n for n, _ in want] and r[2] == want:
+            out.append({"status": "ok"})
+        else:
+            out.append({"status": "fail", "exc": r[1] if r[0] == "err" else "", "msg": r[2] if r[0] == "err" else "wrong members"})
+    return out
+
+
+def check_foreign(ctx, rep, rng, tier):
+    from harness.sandbox import run_sandboxed
+    shapes = [[2, 0, 1000], [0, 1, 1], [1, 1, 1, 1, 1], [3, 70000], [0], [1], [5000, 0, 2, 0, 1], [17, 16, 15]]
+    cases = []
+    for chain in FOREIGN_CHAINS:
+        for sizes in shapes:
+            for limit in ((None, 1, 7) if tier == "quick" else (None, 1, 2, 7, 4096)):
+                cases.append({"chain": chain, "sizes": sizes, "limit": limit, "block": rng.choice([None, None, 16, 4096]),
+                              "crc": rng.choice(["substream", "folder"]), "texture": rng.choice(["text", "random", "period"]),
+                              "seed": rng.getrandbits(32)})
+    # fixed witness of the listed finding C01-foreign-gate-eof (block size 16: the end of the inner stream arrives after the
+    # last coder has delivered its declared size)
+    cases.append({"chain": "deflate>lzma2", "sizes": [1000, 16, 2, 3, 1], "limit": 4096, "block": 16, "crc": "folder",
+                  "texture": "text", "seed": 2634434070})
+    if tier != "quick":
+        for _ in range(600):
+            cases.append({"chain": rng.choice(FOREIGN_CHAINS), "sizes": [rng.choice([0, 1, 2, 3, 15, 16, 17, 100, 1000, 5000])
+                                                                          for _ in range(rng.randrange(1, 7))],
+                          "limit": rng.choice([None, 1, 2, 7, 4096]), "block": rng.choice([None, 16, 17, 4096]),
+                          "crc": rng.choice(["substream", "folder"]), "texture": rng.choice(TEXTURES), "seed": rng.getrandbits(32)})
+    batches = [cases[i:i + 12] for i in range(0, len(cases), 12)]
+
+    def do(batch):
+        res = run_sandboxed("harness.c01:foreign_batch", batch, timeout=60 * len(batch), mem_mb=4000)
+        if res["status"] == "ok":
+            return list(zip(batch, res["value"]))
+        return [(c, {"status": "fail", "exc": res["status"], "msg": "child %s" % res.get("rc")}) for c in batch]
+    with ThreadPoolExecutor(16) as ex:
+        results = [x for part in ex.map(do, batches) for x in part]
+    for c, r in results:
+        rep.count(("foreign", json.dumps(c, sort_keys=True)), nontrivial=sum(c["sizes"]) > 0)
+        rep.dist("foreign_chain", c["chain"])
+        if r["status"] != "ok":
+            rep.violation("solid folder %s (written by the reference writer) with members of %r bytes, chunk limit %s, block size %s: "
+                          "%s %s" % (c["chain"], c["sizes"], c["limit"], c["block"], r["exc"], r["msg"]),
+                          {"kind": "foreign", "case": c, "result": r},
+                          match_keys={"kind": "foreign-two-coder", "chain": c["chain"], "exc": r["exc"]})
+    rep.extra["foreign_cases"] = len(cases)
+
+
 # ======================================================================================================
 def run(ctx):
     rep, tier = ctx["rep"], ctx["tier"]
@@ -1471,6 +1553,12 @@ def run(ctx):
         rep.violation("check_e2e raised %s: %s" % (type(e).__name__, e),
                       {"kind": "exception", "part": "check_e2e", "trace": traceback.format_exc()[-1500:]},
                       concrete=False, match_keys={"kind": "exception"})
+    try:
+        check_foreign(ctx, rep, rng, tier)
+    except Exception as e:  # noqa
+        rep.violation("check_foreign raised %s: %s" % (type(e).__name__, e),
+                      {"kind": "exception", "part": "check_foreign", "trace": traceback.format_exc()[-1500:]},
+                      concrete=False, match_keys={"kind": "exception"})
     th.join()
     if crep["exc"]:
         rep.violation("check_contracts raised %s: %s" % (type(crep["exc"][0]).__name__, crep["exc"][0]),
@@ -1483,6 +1571,10 @@ def replay(d):
     r = d["replay"]
     if r.get("kind") == "session":
         out = run_sandboxed("harness.c01:batch_worker", [r["spec"]], timeout=120, mem_mb=4000)
+        print(json.dumps(out, default=str)[:1500])
+        return 0 if out["status"] == "ok" and out["value"][0]["status"] == "ok" else 1
+    if r.get("kind") == "foreign":
+        out = run_sandboxed("harness.c01:foreign_batch", [r["case"]], timeout=120, mem_mb=4000)
         print(json.dumps(out, default=str)[:1500])
         return 0 if out["status"] == "ok" and out["value"][0]["status"] == "ok" else 1
     if r.get("kind") == "codec-contract" and r.get("mode") == "tail-split":
